@@ -15,7 +15,7 @@ E1_NOTE = "Trusted: the harness's reference model and canonical key (DESIGN.md a
 NOT_APPLICABLE = {}
 
 ENGINES = [
-    {'name': 'seqx', 'path': 'engine/mc.h', 'serves_properties': ['C01', 'C02', 'C03', 'C04', 'C07', 'C08', 'C12', 'C09', 'C10', 'C13', 'C14', 'C15', 'C19'], 'kind_free_text': 'explicit-state breadth-first closure search over the real library code; state = operation history replayed on fresh objects, deduplicated by a canonical serialisation of the real data structure; reference model + oracles on every transition'},
+    {'name': 'seqx', 'path': 'engine/mc.h', 'serves_properties': ['C01', 'C02', 'C03', 'C04', 'C05', 'C07', 'C08', 'C12', 'C09', 'C10', 'C13', 'C14', 'C15', 'C19'], 'kind_free_text': 'explicit-state breadth-first closure search over the real library code; state = operation history replayed on fresh objects, deduplicated by a canonical serialisation of the real data structure; reference model + oracles on every transition'},
 ]
 
 PROPS = {
@@ -151,6 +151,15 @@ PROPS = {
         'technique': 'explicit-state BFS to closure on the real code vs view/buffer reference model + allocation accounting',
         'jobs': [{'world': 'array', 'src': 'worlds/array_world.c', 'lib': ['array.c', 'memory.c'], 'flavours': RELDBG_ALWAYS}],
         'rule': 'breadth-first search to closure; a state is non-trivial when some object is a view with a non-zero offset',
+        'assumptions': ASSUME_E1,
+    },
+    'C05': {
+        'level': 'model_checking',
+        'claim': 'Exhaustive within scope: closure over alloc (with clear callback, and of size 0) / share / swap / reset / weak_from / lock / weak_reset / weak_swap on 3 (thorough 4) shared and 2 weak pointer objects, and alloc / release / swap / reset on 2 unique pointer objects; for every single operation the sequence of destruction events (clear callback, free of the managed block, free of the bookkeeping block) observed through the callback and the allocation layer must equal the reference model\'s prediction for that operation - which pins never-earlier and never-later; get(), unique() and the number of live blocks are compared in every state.',
+        'note': E1_NOTE + ' lock() resets its target first (as documented by the code), so locking into the last owner of the same allocation destroys it and yields an empty pointer.',
+        'technique': 'explicit-state BFS to closure on the real code vs reference-count model with per-operation destruction-event oracle',
+        'jobs': [{'world': 'ptr', 'src': 'worlds/ptr_world.c', 'lib': ['memory.c'], 'flavours': RELDBG_ALWAYS}],
+        'rule': 'breadth-first search to closure; a state is non-trivial when some allocation has at least two references (or, for unique pointers, some pointer owns memory)',
         'assumptions': ASSUME_E1,
     },
 }
